@@ -107,6 +107,8 @@ impl Scenario for FailStop {
             0..=3 => Policy::plain(),
             4 => Policy { rd: Xfer::Fixed(7), wr: Xfer::Fixed(7), pend: Pend::NEVER, seed: rng.next_u64() },
             5 => Policy { rd: Xfer::Random(64), wr: Xfer::Random(64), pend: Pend::NEVER, seed: rng.next_u64() },
+            // async: every operation (also seek / flush / close) answers Pending once first
+            6 if face == Face::Async => Policy { rd: Xfer::Full, wr: Xfer::Full, pend: Pend { rate: 100, burst: 1, inline: *rng.pick(&[0u8, 100]), ctl: true }, seed: rng.next_u64() },
             _ => {
                 let mut p = Policy::draw(rng, face == Face::Async);
                 // one-byte transfers make N explode without adding fault sites
